@@ -1079,6 +1079,70 @@ fn gen_dedup_spec(rng: &mut Rng) -> String {
 }
 
 // ---------------------------------------------------------------------------------------------
+// class 5 (reuse / state that outlives an object): the SAME input blob through DIFFERENT pipelines, back to back on one
+// thread (blob path, stream path on a current-thread runtime, and whole one-tile conversions) – seeded regression C04-7
+// ---------------------------------------------------------------------------------------------
+fn same_blob_sequences(out: &mut Out, args: &Args) {
+	use versatiles_core::types::TileStream;
+	let rt1 = tokio::runtime::Builder::new_current_thread().enable_all().build().unwrap();
+	let payloads: Vec<Vec<u8>> = vec![b"ocean tile ocean tile ocean tile ocean tile".to_vec(), vec![0x42], gz_enc(b"nested", 6)];
+	let mut n = 0u64;
+	for p in &payloads {
+		for s in COMPS {
+			let blob = indep_enc(s, p);
+			// every (dst, force) twice in two different orders, always the same input bytes
+			let mut order: Vec<(TileCompression, bool)> = vec![];
+			for d in COMPS {
+				for f in [false, true] {
+					order.push((d, f));
+				}
+			}
+			let mut rev = order.clone();
+			rev.reverse();
+			order.extend(rev);
+			for (d, f) in order {
+				let key = format!("C04 sameblob {} {} {} {}", cname(s), cname(d), f as u8, hex(&p[..p.len().min(8)]));
+				let conv = TileConverter::new_tile_recompressor(&s, &d, f).unwrap();
+				let a = catch(|| conv.process_blob(Blob::from(blob.clone())).ok().map(|b| b.into_vec()));
+				let st = catch(|| rt1.block_on(async { conv.process_stream(TileStream::from_vec(vec![(TileCoord3::new(0, 0, 0).unwrap(), Blob::from(blob.clone()))])).collect().await }));
+				let ok_a = matches!(&a, Ok(Some(b)) if indep_dec(d, b).as_ref() == Some(p));
+				let ok_s = matches!(&st, Ok(v) if v.len() == 1 && indep_dec(d, v[0].1.as_slice()).as_ref() == Some(p));
+				out.oracle(ok_a && ok_s, "C04 same blob through another pipeline", json!({"kind":"same_blob_other_pipeline","src":cname(s),"dst":cname(d),"force":f,"blob_path_ok":ok_a,"stream_path_ok":ok_s}), json!({"case": key}));
+				out.eval(&key, true);
+				n += 1;
+			}
+		}
+	}
+	// whole conversions of a one-tile source, different targets back to back, on the current-thread runtime
+	let dir = args.out.join("e2e");
+	std::fs::create_dir_all(&dir).unwrap();
+	let p = payloads[0].clone();
+	for s in COMPS {
+		for (i, t) in [Some(COMPS[2]), Some(COMPS[0]), Some(COMPS[1]), None, Some(COMPS[0]), Some(COMPS[2])].iter().enumerate() {
+			let src = vec![((0u8, 0u32, 0u32), indep_enc(s, &p))];
+			let path = dir.join(format!("one_{}_{}.versatiles", cname(s), i));
+			let reader = MemReader::new(TileFormat::PBF, s, source_tilejson(true), &src);
+			let cp = TilesConverterParameters::new(*t, None, i % 2 == 1, false, false);
+			let key = format!("C04 onetile {} {} {}", cname(s), t.map_or("keep", cname), i);
+			let r = catch(|| {
+				rt1.block_on(async {
+					convert_tiles_container(reader.boxed(), cp, path.to_str().unwrap()).await?;
+					let rd = get_reader(path.to_str().unwrap()).await?;
+					let b = rd.get_tile_data(&TileCoord3::new(0, 0, 0)?).await?;
+					anyhow::Ok((rd.get_parameters().tile_compression, b.map(|b| b.into_vec())))
+				})
+			});
+			let ok = matches!(&r, Ok(Ok((c, Some(b)))) if *c == t.unwrap_or(s) && indep_dec(*c, b).as_ref() == Some(&p));
+			out.oracle(ok, "C04 one-tile conversions back to back", json!({"kind":"one_tile_sequence","src":cname(s),"target":t.map_or("keep", cname)}), json!({"case": key}));
+			out.eval(&key, true);
+			let _ = std::fs::remove_file(&path);
+			n += 1;
+		}
+	}
+	out.count_n("same_blob_sequence_steps", n);
+}
+
+// ---------------------------------------------------------------------------------------------
 // assumed codec laws, tested on the real crates
 // ---------------------------------------------------------------------------------------------
 fn law_checks(out: &mut Out, args: &Args, rng: &mut Rng) {
@@ -1247,6 +1311,8 @@ pub fn run(args: &Args) {
 		leaves_case(&mut out, args, &rt, TileCompression::Uncompressed, Some(TileCompression::Gzip), false);
 		leaves_case(&mut out, args, &rt, TileCompression::Brotli, None, true);
 	}
+	// C3. same input, different pipelines, one thread
+	same_blob_sequences(&mut out, args);
 	// C''. de-duplication layout of the versatiles block writer
 	for spec in ["999:1,999:1", "1000:1,1000:1", "999:1,1000:1,999:1", "5:1,5:2,5:1,5:2,5:1", "1:1", "1001:3,17:2,1001:3,17:2"] {
 		dedup_case(&mut out, args, &rt, spec);
@@ -1310,6 +1376,21 @@ pub fn run(args: &Args) {
 				}
 			}
 		}
+	}
+	for n in [
+		"checklist 1 (thresholds): 999/1000-byte duplicates + 998..1001 in the dedup stream (versatiles de-dup limit), 256-block border at zoom 9, 16384-entry / 16 KiB PMTiles root (leaves case, leaf size asserted from the header), 2000-row mbtiles batches (4225-tile world), zoom 31",
+		"checklist 2 (faults): undecodable source tile (world fault: must fail when recoding is needed, byte-identical pass-through otherwise); empty / truncated blobs in proc/rec",
+		"checklist 3 (payloads): 0 and 1 byte, duplicates within and across blocks, 70 KiB / 200 KiB, undecodable, payloads that are valid streams of another codec",
+		"checklist 4 (options): target x force x flip_y x swap_xy x bbox (world opts); override_compression is exercised by C05/C06",
+		"checklist 5 (state): output file exists and is longer (garbage / earlier container), non-empty directory (known finding), converter object reused, same blob through different pipelines back to back on one thread, one-tile conversions back to back on a current-thread runtime",
+		"checklist 6 (order): oracles are keyed by coordinate; small and 200 KiB tiles share a stream; scheduling itself is C14",
+		"checklist 7 (HTTP): n.a. (no request surface)",
+		"checklist 8 (coordinates): zoom 0, 30, 31 far corner (world z31), block border",
+		"checklist 9 (foreign encoders): tiles encoded by flate2/brotli with other parameters; source containers written by indep_formats (world indep)",
+		"checklist 10 (two paths): converter lookup path vs stream path vs recompress; process_blob vs process_stream on the same blobs",
+		"checklist 11 (fallbacks): `keep` = fall back to the source compression (all e2e targets); metadata defaults are C17's",
+	] {
+		out.notes.push(n.into());
 	}
 	out.exhaustive = true;
 	out.notes.push("decision tables (18 recompressor and 24 converter configurations) are covered exhaustively; every (format, src, target, force) conversion is run in every tier".into());
